@@ -259,4 +259,41 @@ example : (msgDAOTransfer mt st0 [9] [1] 50).err = none ∧ (msgDAOTransfer mt s
 example : (msgDAOBurn mt st0 [9] 20).err = none ∧ (msgDAOBurn mt st0 [9] 20).st.bank.supply = 130 := by decide
 example : (msgDAOTransfer mt st0 [9] [1] 51).st = st0 ∧ (msgDAOBurn mt st0 [7] 5).st = st0 := by decide
 
+/-! ## Duplicate keys in the ACL list (seeded change C36-d)
+
+The ACL is a list and nothing rejects two pairs for one key.  `GetOwner` is *first match*: a pair
+behind an earlier pair for the same key is a decoy that never gains any right, and a pair in front
+shadows everything behind it.  (A map-based lookup — last pair wins — differs exactly here.) -/
+
+/-- A pair appended behind an ACL that already lists the key changes no owner at all. -/
+theorem trailing_duplicate_is_inert (acl : ACL) (k : String) (b : Addr)
+    (h : ∃ a, (k, a) ∈ acl) (key : String) :
+    ACL.getOwner (acl ++ [(k, b)]) key = ACL.getOwner acl key := by
+  induction acl with
+  | nil => obtain ⟨a, ha⟩ := h; simp at ha
+  | cons p r ih =>
+    obtain ⟨k', a'⟩ := p
+    simp only [List.cons_append, ACL.getOwner]
+    by_cases hk : k' = key
+    · simp [hk]
+    · simp only [hk, if_false]
+      by_cases hk2 : k = key
+      · subst hk2
+        obtain ⟨a, ha⟩ := h
+        rcases List.mem_cons.mp ha with he | hr
+        · exact absurd (by simpa using (congrArg Prod.fst he).symm) hk
+        · exact ih ⟨a, hr⟩
+      · -- the appended key is not the one looked up: the appended pair is never reached
+        clear ih h
+        induction r with
+        | nil => simp [ACL.getOwner, hk2]
+        | cons q r ih2 => obtain ⟨k2, a2⟩ := q; simp only [List.cons_append, ACL.getOwner]; split <;> simp_all
+
+/-- A pair put in front decides the key, whatever follows. -/
+theorem leading_pair_shadows (acl : ACL) (k : String) (b : Addr) :
+    ACL.getOwner ((k, b) :: acl) k = b := by simp [ACL.getOwner]
+
+example : ACL.getOwner [("auth/MaxMemoCharacters", [1]), ("auth/MaxMemoCharacters", [2])] "auth/MaxMemoCharacters" = [1] := by
+  decide
+
 end C36
